@@ -4,11 +4,18 @@ C08 — same seed, same run.
 * `Sequential::evaluate` / `Parallel::evaluate` (src/problems/evaluate.rs): the parallel evaluator
   hands each individual to some worker; whatever the interleaving, what happens is one write
   `objective := f(solution)` per index, in some completion order (`sched`). Neither evaluator takes
-  the generator: the model's evaluation functions have no RNG argument.
+  the generator: the model's evaluation functions have no RNG argument. ASSUMED (not in the types of
+  the Rust code): `problem.objective(&self, …)` is a pure function of the solution, and the evaluators
+  do not touch the `_state` they are handed.
+* a run language whose steps draw from the generator between evaluations, push/merge populations,
+  update the best individual and log; the state is populations × generator position × evaluations ×
+  best × log, plus a ghost record of the objective calls in completion order.
 * `Random`, `Random::iter_children` (src/state/random.rs): a generator is a stream (fixed by its
   constructor and seed) and a position; a child is constructed from the parent's next `next_u64`.
 * `Configuration::optimize_with` (src/configuration.rs): a default generator is inserted iff the
-  user's initialiser did not insert one.
+  user's initialiser did not insert one; the run draws from the generator in the state.
+* `par_experiment` (src/experiments.rs): jobs = runs × problems, executed in any order; job (r, p)
+  is `optimize_with` with `Random::new(r)`, its log goes to the file of (p, r).
 -/
 import MahfModel.Model.Sexp
 namespace MahfModel.Determinism
@@ -37,22 +44,31 @@ def modifyAt {α : Type} (g : α → α) : List α → Nat → List α
 def evalPar (f : S → O) (pop : List (Ind S O)) (sched : List Nat) : List (Ind S O) :=
   sched.foldl (modifyAt (evalInd f)) pop
 
+/-- Ghost: the solutions the objective function was called on, in completion order. -/
+def callsPar (pop : List (Ind S O)) (sched : List Nat) : List S :=
+  sched.filterMap fun i => pop[i]?.map (·.sol)
+
 end Eval
 
-/-! ### A small run language: evaluation steps under arbitrary schedules, steps that draw -/
+/-! ### A run language: drawing steps, a population stack, best, log; evaluation under schedules -/
 
 inductive Op where
-  | eval          -- `PopulationEvaluator` (+ `Evaluations += len`)
-  | perturb       -- draws one word, rewrites one solution with it (resets its objective)
-  | spawn         -- draws one word, appends a new unevaluated individual
+  | eval          -- `PopulationEvaluator` on the current population (+ `Evaluations += len`)
+  | perturb       -- draws one word, rewrites one solution of the current population (resets its objective)
+  | spawn         -- draws one word, appends a new unevaluated individual to the current population
+  | select        -- draws one word, pushes a population of copies of a prefix of the current one
+  | merge         -- pops the current population and appends it to the one below
   | best          -- `BestIndividualUpdate`
+  | log           -- `Logger`: appends (evaluations, best objective, size of the current population)
   deriving Repr, DecidableEq
 
 structure RunSt where
-  pop : List (Ind Nat Nat)
-  rng : Nat                      -- position in the generator's stream
+  stack : List (List (Ind Nat Nat))   -- head = current population
+  rng : Nat                           -- position in the generator's stream
   evals : Nat
   best : Option (Ind Nat Nat)
+  log : List (Nat × Option Nat × Nat)
+  calls : List Nat                    -- ghost: objective calls in completion order
   deriving Repr, DecidableEq
 
 def better (a : Ind Nat Nat) : Option (Ind Nat Nat) → Option (Ind Nat Nat)
@@ -64,40 +80,63 @@ def better (a : Ind Nat Nat) : Option (Ind Nat Nat) → Option (Ind Nat Nat)
 def updBest (pop : List (Ind Nat Nat)) (b : Option (Ind Nat Nat)) : Option (Ind Nat Nat) :=
   pop.foldl (fun acc i => if i.obj.isSome then better i acc else acc) b
 
-/-- Everything except evaluation. `stream` is the generator (a function of its seed). -/
+def cur (s : RunSt) : List (Ind Nat Nat) := s.stack.headD []
+
+def setCur (s : RunSt) (p : List (Ind Nat Nat)) : RunSt := { s with stack := p :: s.stack.tail }
+
+/-- Everything except evaluation. `stream` is the generator (a function of its seed). Does not read
+the ghost field. -/
 def stepOther (stream : Nat → Nat) : Op → RunSt → RunSt
   | .eval, s => s
   | .perturb, s =>
     let w := stream s.rng
-    { s with rng := s.rng + 1,
-             pop := modifyAt (fun i => { sol := i.sol + w, obj := none }) s.pop (w % (s.pop.length + 1)) }
+    { setCur s (modifyAt (fun i => { sol := i.sol + w, obj := none }) (cur s) (w % ((cur s).length + 1))) with rng := s.rng + 1 }
   | .spawn, s =>
     let w := stream s.rng
-    { s with rng := s.rng + 1, pop := s.pop ++ [{ sol := w, obj := none }] }
-  | .best, s => { s with best := updBest s.pop s.best }
+    { setCur s (cur s ++ [{ sol := w, obj := none }]) with rng := s.rng + 1 }
+  | .select, s =>
+    let w := stream s.rng
+    { s with rng := s.rng + 1, stack := (cur s).take (w % ((cur s).length + 1)) :: s.stack }
+  | .merge, s =>
+    match s.stack with
+    | top :: below :: rest => { s with stack := (below ++ top) :: rest }
+    | _ => s
+  | .best, s => { s with best := updBest (cur s) s.best }
+  | .log, s => { s with log := s.log ++ [(s.evals, s.best.bind (·.obj), (cur s).length)] }
 
-/-- The run with the sequential evaluator. -/
+/-- The evaluation step with the sequential evaluator. -/
+def evalStepSeq (f : Nat → Nat) (s : RunSt) : RunSt :=
+  { setCur s (evalSeq f (cur s)) with evals := s.evals + (cur s).length, calls := s.calls ++ (cur s).map (·.sol) }
+
+/-- The evaluation step with the parallel evaluator completing in order `sch`. -/
+def evalStepPar (f : Nat → Nat) (sch : List Nat) (s : RunSt) : RunSt :=
+  { setCur s (evalPar f (cur s) sch) with evals := s.evals + (cur s).length, calls := s.calls ++ callsPar (cur s) sch }
+
 def runSeq (f : Nat → Nat) (stream : Nat → Nat) : List Op → RunSt → RunSt
   | [], s => s
-  | .eval :: ops, s => runSeq f stream ops { s with pop := evalSeq f s.pop, evals := s.evals + s.pop.length }
+  | .eval :: ops, s => runSeq f stream ops (evalStepSeq f s)
   | op :: ops, s => runSeq f stream ops (stepOther stream op s)
 
-/-- The run with the parallel evaluator; the i-th evaluation step completes in order `scheds[i]`. -/
+/-- The run with the parallel evaluator; the i-th evaluation step completes in order `scheds[i]`
+(with no schedule left it falls back to the slice order). -/
 def runPar (f : Nat → Nat) (stream : Nat → Nat) : List Op → List (List Nat) → RunSt → RunSt
   | [], _, s => s
-  | .eval :: ops, [], s => runPar f stream ops [] { s with pop := evalSeq f s.pop, evals := s.evals + s.pop.length }
-  | .eval :: ops, sch :: schs, s =>
-    runPar f stream ops schs { s with pop := evalPar f s.pop sch, evals := s.evals + s.pop.length }
+  | .eval :: ops, [], s => runPar f stream ops [] (evalStepSeq f s)
+  | .eval :: ops, sch :: schs, s => runPar f stream ops schs (evalStepPar f sch s)
   | op :: ops, schs, s => runPar f stream ops schs (stepOther stream op s)
 
-/-- Every schedule is a completion order of exactly the individuals present at that step. -/
+/-- One schedule per evaluation step, each a completion order of exactly the individuals present at
+that step; no schedule left over. -/
 def Legal (f : Nat → Nat) (stream : Nat → Nat) : List Op → List (List Nat) → RunSt → Prop
-  | [], _, _ => True
-  | .eval :: ops, [], s => Legal f stream ops [] { s with pop := evalSeq f s.pop, evals := s.evals + s.pop.length }
+  | [], schs, _ => schs = []
+  | .eval :: _, [], _ => False
   | .eval :: ops, sch :: schs, s =>
-    sch.Perm (List.range s.pop.length) ∧
-    Legal f stream ops schs { s with pop := evalSeq f s.pop, evals := s.evals + s.pop.length }
+    sch.Perm (List.range (cur s).length) ∧ Legal f stream ops schs (evalStepSeq f s)
   | op :: ops, schs, s => Legal f stream ops schs (stepOther stream op s)
+
+/-- Two states that differ at most in the order of the ghost call record. -/
+def SameUpToCallOrder (a b : RunSt) : Prop :=
+  a.stack = b.stack ∧ a.rng = b.rng ∧ a.evals = b.evals ∧ a.best = b.best ∧ a.log = b.log ∧ a.calls.Perm b.calls
 
 /-! ### Generators -/
 
@@ -125,40 +164,81 @@ def childSeeds : Nat → Rng → List Nat
 
 /-! ### `optimize_with` -/
 
-/-- The part of the state that matters: which generator object it holds (by identity `G`). -/
-structure Reg (G : Type) where
-  random : Option G
+/-- The part of the state that matters: which generator it holds. -/
+structure Reg where
+  random : Option Rng
 
-def optimizeWith {G : Type} (userInit : Reg G → Reg G) (dflt : G) : Reg G :=
-  let s := userInit { random := none }
-  if s.random.isSome then s else { s with random := some dflt }
+/-- `optimize_with`: the user's initialiser may fail (`?`); a default generator is inserted iff none
+is present; then the configuration runs, drawing from the generator in the state. -/
+def optimizeWith {R : Type} (userInit : Reg → Except Unit Reg) (dflt : Rng) (run : Rng → R) : Except Unit R :=
+  match userInit { random := none } with
+  | .error e => .error e
+  | .ok s =>
+    let s' := if s.random.isSome then s else { s with random := some dflt }
+    match s'.random with
+    | some g => .ok (run g)
+    | none => .error ()
+
+/-! ### `par_experiment` -/
+
+/-- `(0..runs).cartesian_product(problems)`: job = (run, problem index). -/
+def jobs (runs nprob : Nat) : List (Nat × Nat) :=
+  (List.range runs).flatMap fun r => (List.range nprob).map fun p => (r, p)
+
+/-- `state.insert(Random::new(run))` -/
+def jobSeed (job : Nat × Nat) : Nat := job.1
+
+/-- The experiment with the jobs completing in order `sched`: each writes the file of
+(problem, run) with the result of the single run of that problem with the job's seed. -/
+def experiment {R : Type} (single : Nat → Nat → R) (runs nprob : Nat) (sched : List Nat) : List ((Nat × Nat) × R) :=
+  sched.filterMap fun j => (jobs runs nprob)[j]?.map fun job => ((job.2, job.1), single job.2 (jobSeed job))
+
+def fileOf {R : Type} (files : List ((Nat × Nat) × R)) (p r : Nat) : Option R :=
+  (files.find? fun x => decide (x.1 = (p, r))).map (·.2)
 
 /-! ### Wire format -/
 open MahfModel Sexp
 
-/-- `(digests (tag d)…)`: the model's prediction is that every digest equals the first one. -/
-def predictDigests (implOut : Sexp) : Option (Sexp × Bool) :=
+def degenerateDigest (d : Sexp) : Bool :=
+  match d with
+  | .atom s => !(s.startsWith "h")
+  | _ => true
+
+/-- `(digests (tag d)…)`: all digests of a case must be equal (and be digests of completed runs). -/
+def digestsEqual (implOut : Sexp) : Option (Sexp × Bool) :=
   match implOut with
   | .list (.atom "digests" :: .list [.atom t0, d0] :: rest) => do
     let tags ← rest.mapM fun e => match e with
       | .list [.atom t, _] => some t
       | _ => none
-    let model := Sexp.list (.atom "digests" :: .list [.atom t0, d0] :: tags.map fun t => .list [.atom t, d0])
-    pure (model, Sexp.beq model implOut)
+    let want := Sexp.list (.atom "digests" :: .list [.atom t0, d0] :: tags.map fun t => .list [.atom t, d0])
+    pure (want, Sexp.beq want implOut)
   | _ => none
 
-/-- `(children (words w…) (seeds s…) (a d…) (b d…))`: child seeds are the parent's successive words
-(`words` is the parent stream as observed on an identically seeded twin); deriving twice gives the
-same child streams (`a`, `b` are digests of the children's first 64 words). -/
+/-- `(children (words w…) (seeds s…) (a d…) (b d…) (c d…))`: child seeds are the parent's successive
+words (`words` is the parent stream as observed on an identically seeded twin); deriving twice gives
+the same child streams (`a`, `b`: digests of the children's first 64 words), and a child's stream is
+the stream of a generator constructed directly from that word (`c`). -/
 def predictChildren (implOut : Sexp) : Option (Sexp × Bool) :=
   match implOut with
-  | .list [.atom "children", .list (.atom "words" :: ws), .list (.atom "seeds" :: _), .list (.atom "a" :: da), .list (.atom "b" :: _)] => do
+  | .list [.atom "children", .list (.atom "words" :: ws), .list (.atom "seeds" :: _), .list (.atom "a" :: da),
+           .list (.atom "b" :: _), .list (.atom "c" :: _)] => do
     let w ← ws.mapM nat?
     let r : Rng := { stream := fun i => w.getD i 0, pos := 0 }
     let seeds := childSeeds w.length r
     let model := Sexp.list [.atom "children", .list (.atom "words" :: ws), .list (.atom "seeds" :: seeds.map ofNat),
-      .list (.atom "a" :: da), .list (.atom "b" :: da)]
+      .list (.atom "a" :: da), .list (.atom "b" :: da), .list (.atom "c" :: da)]
     pure (model, Sexp.beq model implOut)
   | _ => none
+
+/-- `(exp (seeds (p r seed)…) (digests …))`: the generator seed observed inside job (p, r) must be
+the model's `jobSeed`. -/
+def predictExpSeeds (seedsS : Sexp) : Option (Sexp × Bool) := do
+  let items ← tagged? "seeds" seedsS
+  let triples ← items.mapM fun t => match t with
+    | .list [p, r, s] => do let p ← nat? p; let r ← nat? r; let s ← nat? s; pure (p, r, s)
+    | _ => none
+  let model := Sexp.list (.atom "seeds" :: triples.map fun (p, r, _) => .list [ofNat p, ofNat r, ofNat (jobSeed (r, p))])
+  pure (model, Sexp.beq model seedsS)
 
 end MahfModel.Determinism
